@@ -26,22 +26,22 @@ type waiter struct {
 type Chan struct {
 	bufVC   [][]int // clocks of the buffered sends
 	closeVC []int
-	buf    []Value
-	cap    int
-	closed bool
-	recvq  []*waiter
-	sendq  []*waiter
-	zero   Value
+	buf     []Value
+	cap     int
+	closed  bool
+	recvq   []*waiter
+	sendq   []*waiter
+	zero    Value
 }
 
 type Sched struct {
-	in     *Interp
-	cur    *G
-	main   *G
-	runq   []*G
-	all    []*G
-	wg     sync.WaitGroup
-	fail   interface{} // abort/panic raised in a non-main goroutine, to deliver to main
+	in   *Interp
+	cur  *G
+	main *G
+	runq []*G
+	all  []*G
+	wg   sync.WaitGroup
+	fail interface{} // abort/panic raised in a non-main goroutine, to deliver to main
 }
 
 func newSched(in *Interp) *Sched {
